@@ -664,6 +664,14 @@ func variationCase(c *core.Ctx, r *core.Rand, i int) {
 	if kind == "attribute-order" {
 		doc = attrOrderRe.ReplaceAllFunc(doc, func(m []byte) []byte {
 			sm := attrOrderRe.FindSubmatch(m)
+			if string(sm[3]) == "DateTime" {
+				// the same instant written with a zone offset, as implementations running outside UTC do
+				if tm, err := time.Parse(time.RFC3339, string(sm[4])); err == nil && tm.Year() > 1 && tm.Year() < 9999 {
+					off := []int{2 * 3600, -5 * 3600, 5*3600 + 1800, 14 * 3600, -12 * 3600}[r.Intn(5)]
+					sm[4] = []byte(tm.In(time.FixedZone("", off)).Format(time.RFC3339))
+					c.Count("variations.date-with-offset", 1)
+				}
+			}
 			switch r.Intn(3) {
 			case 0:
 				return []byte(fmt.Sprintf(`<%s value="%s" type="%s"%s/>`, sm[1], sm[4], sm[3], sm[2]))
@@ -754,6 +762,52 @@ func concurrentRound(c *core.Ctx, r *core.Rand, i int) {
 		c.Violation("C04:A:"+f.enc+":concurrent-document-differs", "a "+f.enc+" document produced while other goroutines encode other messages is not the document the same message gives alone (it carries another message's value)",
 			map[string]any{"alone": clip([]byte(f.want)), "concurrently": clip([]byte(f.got))})
 	}
+}
+
+// reusedEncoders: documents produced by long-lived encoders that are cleared between messages, and that now and then
+// go through an encode call that panics half way (a negative Interval deep inside a message) and is recovered.
+func reusedEncoders(c *core.Ctx, r *core.Rand, i int) {
+	xe, je := ttlv.NewXMLEncoder(), ttlv.NewJSONEncoder()
+	via := map[string]func(any) []byte{
+		"xml":  func(v any) []byte { xe.Clear(); xe.Any(v); return append([]byte{}, xe.Bytes()...) },
+		"json": func(v any) []byte { je.Clear(); je.Any(v); return append([]byte{}, je.Bytes()...) },
+	}
+	poison := &kmip.ResponseMessage{Header: kmip.ResponseHeader{ProtocolVersion: kmip.V1_4, BatchCount: 1},
+		BatchItem: []kmip.ResponseBatchItem{{Operation: kmip.OperationObtainLease, ResultStatus: kmip.ResultStatusSuccess,
+			ResponsePayload: &payloads.ObtainLeaseResponsePayload{UniqueIdentifier: "x", LeaseTime: -5 * time.Second}}}}
+	for k := 0; k < 12; k++ {
+		minor := r.Intn(5)
+		g := gen.New(r, gen.Mode{Minor: minor, Gate: true, Text: gen.TextXML, TextDates: true}, refmodel.Gates())
+		var msg any
+		var newPtr func() any
+		if r.Bool() {
+			m := g.Response(nil)
+			msg, newPtr = &m, func() any { return &kmip.ResponseMessage{} }
+		} else {
+			m := g.Request(nil)
+			msg, newPtr = &m, func() any { return &kmip.RequestMessage{} }
+		}
+		exp, err := refmodel.Tree(msg, minor)
+		if err != nil {
+			panic(err)
+		}
+		if k%3 == 1 {
+			// the accident: the JSON encoder (XML encoders refuse to be cleared with an unfinished document) dies inside a structure
+			func() {
+				defer func() { recover() }()
+				je.Clear()
+				je.Any(poison)
+			}()
+			c.Count("reused_encoder_accidents", 1)
+		}
+		for _, f := range formats {
+			ff := f
+			ff.marshal = via[f.name]
+			c.Count("docs_from_reused_encoders", 1)
+			checkDoc(c, ff, msg, exp, newPtr, fmt.Sprintf("message %d of a long-lived %s encoder (cleared between messages)", k, f.name), false)
+		}
+	}
+	c.Distinct(core.Hash64("reused-encoders", fmt.Sprint(i)))
 }
 
 // vendorRegistration (fresh process): an application registers vendor extension values for standard enumerations;
@@ -862,7 +916,7 @@ func Spec() *core.Spec {
 			"value variations and corpus-derived optional-element removals. plus six fresh processes whose local time zone is not UTC (dates in the first and last hours of years 1..9999), vectors with XML attributes in another order, 8 goroutines producing documents with unnamed enumeration values at once, and (fresh process) standard names read after vendor values were registered for four enumerations. distinct = distinct layout shapes / documents",
 		Assumptions: []string{"TZ=UTC", "harness/xtree is an independent reading of KMIP 1.4 Profiles §5.4/§5.5 by the same author", "placeholders ($NOW, $UNIQUE_IDENTIFIER_n, …) are substituted before both sides see the vector",
 			"an element is optional in a context if the corpus contains an instance of that context without it; rejections of such removals are counted, not judged"},
-		Required: []string{"docs.xml", "docs.json", "py_judged.xml", "py_judged.json", "vectors_supported", "variations.value", "variations.optional-element", "variations.attribute-order", "concurrent_documents", "vendor_registration_docs", "local_zone_dates", "ladder.enum-named", "ladder.mask-bit31", "ladder.text-json-control", "ladder.long-near-2^52"},
+		Required: []string{"docs.xml", "docs.json", "py_judged.xml", "py_judged.json", "vectors_supported", "variations.value", "variations.optional-element", "variations.attribute-order", "variations.date-with-offset", "docs_from_reused_encoders", "concurrent_documents", "vendor_registration_docs", "local_zone_dates", "ladder.enum-named", "ladder.mask-bit31", "ladder.text-json-control", "ladder.long-near-2^52"},
 		// a data race inside the codec while documents are being produced means one document may carry another one's
 		// content: a violation when both stacks end in package ttlv (other reports print as diagnostics)
 		RaceVerdict: func(r core.RaceReport) (string, bool) {
@@ -886,6 +940,7 @@ func Spec() *core.Spec {
 			{Name: "oasis-variations", N: nOf(6000, 200000), Run: variationCase},
 			// processes of their own, built with the race detector (see RaceVerdict)
 			{Name: "concurrent", Isolated: true, Race: true, N: nOf(2, 60), Run: concurrentDocs, Timeout: 120 * time.Second},
+			{Name: "reused-encoders", N: nOf(40, 4000), Run: reusedEncoders},
 			{Name: "local-zone", Isolated: true, Exhaustive: true, N: func(string) int { return 6 }, Run: localZoneCase, Timeout: 120 * time.Second},
 			{Name: "vendor-registration", Isolated: true, N: nOf(1, 8), Run: vendorRegistration, Timeout: 120 * time.Second},
 			{Name: "py-flush", N: func(string) int { return 16 }, Run: func(c *core.Ctx, r *core.Rand, i int) { pyFlush(c) }},
